@@ -1,4 +1,5 @@
 import IV.Lemmas.Specs
+import IV.Lemmas.SpecFlags
 import IV.Props.C02
 /-!
 C05 — the latest implementation for the active context is the one that supplies a spec.
@@ -798,5 +799,100 @@ example : supplier rHist 1 20 = some 3 ∧ implsOf rHist 1 = [2, 3] := by decide
 example : Requires wEnv [20] 2 := .req 2 _ 20 rfl (by decide) (by decide) (.ctx 20 (by decide) rfl)
 example : (runComponents (world wRoot wEnv (register wRoot wHist)) wIn false [20, 1, 2, 10] (Broker.seeded wSeed)).inst 10
     = some (.atom 7) := by decide
+
+/-! ### propagation of the registry point's flags (filterable, raw, multi_output, no_obfuscate, no_redact, prio)
+
+`fRegister own h` (Model/Specs, third part) runs over the same class-creation history as `hRegister h`;
+`own c` = the flags the component `c` was created with. -/
+
+/-- the flag machine wires exactly what `hRegister` wires: same class count, same registries, same dependency lists -/
+theorem flags_machine_agrees (own : Comp → Flags) (h : HHistory) :
+    (fRegister own h).nclasses = (hRegister h).nclasses ∧ (fRegister own h).registry = (hRegister h).registry ∧
+    (fRegister own h).deps = (hRegister h).deps := fRegister_sim own h
+
+/-- one wiring step: what is attached takes the flags the point of `bases[0]` has at that moment (not the flags of
+the top of the chain, not its own), and nothing else changes its flags -/
+theorem flags_from_base_point (b : ClassId) (ps : List ClassId) (n : Name) (v pt : Comp) (r : FReg)
+    (hreg : r.registry b n = some pt) :
+    (fAttach (b :: ps) n v r).flags v = r.flags pt ∧ ∀ x, x ≠ v → (fAttach (b :: ps) n v r).flags x = r.flags x := by
+  unfold fAttach
+  simp only [hreg]
+  exact ⟨by simp, fun x hx => by simp [hx]⟩
+
+/-- for every history in which every attribute is a component of its own: every dependency of a registry point —
+an implementation, or a re-declared registry point — carries exactly the flags of that point -/
+theorem flags_follow_point (own : Comp → Flags) (h : HHistory) (hnd : (hComps h).Nodup) (p d : Comp)
+    (hd : d ∈ (hRegister h).deps p) : (fRegister own h).flags d = (fRegister own h).flags p := by
+  have hi := fHist_inv h (FReg.init own) (fun _ => False)
+    ⟨by intro k n p hp; simp [FReg.init] at hp, by intro p d hd; simp [FReg.init] at hd⟩ hnd (by intro x _ hx; exact hx)
+  rw [← (fRegister_sim own h).2.2] at hd
+  exact (hi.2 p d hd).2.2
+
+/-- hence down every chain of re-declarations: whatever is reached from a registry point through registry points
+carries that point's flags — all implementations of a spec, at whatever level they are attached, and every
+re-declared point, agree with the top-level point -/
+theorem family_flags (own : Comp → Flags) (h : HHistory) (hnd : (hComps h).Nodup) (p v : Comp)
+    (hp : Path (hRegister h) p v) : (fRegister own h).flags v = (fRegister own h).flags p := by
+  induction hp with
+  | direct p v _ hv => exact flags_follow_point own h hnd p v hv
+  | step p q v _ hq _ ih => rw [ih]; exact flags_follow_point own h hnd p q hq
+
+/-- a component that is a dependency of no registry point (a top-level point, a grandchild's datasource, a
+datasource under a name nobody declares, something that is not a datasource) keeps the flags it was created with -/
+theorem unwired_keeps_own_flags (own : Comp → Flags) (h : HHistory) (x : Comp)
+    (hx : ∀ p, x ∉ (hRegister h).deps p) : (fRegister own h).flags x = own x := by
+  apply fRegister_own own h x
+  intro p
+  rw [(fRegister_sim own h).2.2]
+  exact hx p
+
+/-- together: every member of a spec's family carries the flags the TOP-LEVEL point was declared with -/
+theorem family_flags_are_the_top_points (own : Comp → Flags) (h : HHistory) (hnd : (hComps h).Nodup) (p v : Comp)
+    (hp : Path (hRegister h) p v) (htop : ∀ q, p ∉ (hRegister h).deps q) : (fRegister own h).flags v = own p := by
+  rw [family_flags own h hnd p v hp]; exact unwired_keeps_own_flags own h p htop
+
+private def fHist : HHistory :=
+  [⟨[], [⟨0, 10, true, [], true⟩]⟩, ⟨[0], [⟨0, 11, true, [], true⟩]⟩, ⟨[1, 0], [⟨0, 2, false, [20], true⟩]⟩,
+   ⟨[0], [⟨0, 1, false, [20], true⟩, ⟨3, 4, false, [20], true⟩]⟩]
+private def fOwn : Comp → Flags := fun c => if c = 10 then 5 else if c = 11 then 7 else if c = 4 then 9 else 0
+example : (hComps fHist).Nodup ∧ (hRegister fHist).deps 10 = [11, 1] ∧ (hRegister fHist).deps 11 = [2] := by decide
+example : (fRegister fOwn fHist).flags 11 = 5 ∧ (fRegister fOwn fHist).flags 2 = 5 ∧ (fRegister fOwn fHist).flags 1 = 5 ∧
+    (fRegister fOwn fHist).flags 10 = 5 ∧ (fRegister fOwn fHist).flags 4 = 9 := by decide
+example : Path (hRegister fHist) 10 2 := .step 10 11 2 (by decide) (by decide) (.direct 11 2 (by decide) (by decide))
+example : ∀ q ∈ [10, 11, 1, 2, 4], (10 : Comp) ∉ (hRegister fHist).deps q := by decide
+example : (fAttach [0] 0 1 (fRegister fOwn (fHist.take 2))).flags 1 = 5 := by decide
+
+/-- the hypothesis of `flags_follow_point` is needed, and it is where the code stops propagating: ONE component
+attached twice — first as implementation of a point with flags 5, then under a point with flags 7 — ends with the
+flags of the second point although it is still a dependency of the first -/
+theorem flags_scope_distinct_components :
+    ¬ (∀ (own : Comp → Flags) (h : HHistory) (p d : Comp), d ∈ (hRegister h).deps p →
+        (fRegister own h).flags d = (fRegister own h).flags p) := by
+  intro hall
+  have := hall (fun c => if c = 10 then 5 else if c = 12 then 7 else 0)
+    [⟨[], [⟨0, 10, true, [], true⟩, ⟨1, 12, true, [], true⟩]⟩, ⟨[0], [⟨0, 1, false, [20], true⟩]⟩,
+     ⟨[0], [⟨1, 1, false, [20], true⟩]⟩] 10 1 (by decide)
+  revert this
+  decide
+
+/-! ### one implementation OBJECT attached twice (`p0 = Earlier.p0`)
+
+The hypotheses `hnd` / `honce` of `hier_latest_not_ignored` ("registered once") are needed: the full statement is
+false of the code.  Re-exporting the same datasource object under the same spec name in a second class makes
+`_register_context_handler` find the object itself in the handler list and tell it to ignore its own context. -/
+def LatestNotIgnoredFull : Prop :=
+  ∀ (h : HHistory) (t : ClassId) (n : Name) (c v : Comp),
+    ((hRegister h).handlers t n c).getLast? = some v → c ∉ (hRegister h).ignore v
+
+private def tHist : HHistory :=
+  [⟨[], [⟨0, 10, true, [], true⟩]⟩, ⟨[0], [⟨0, 3, false, [20], true⟩]⟩, ⟨[0], [⟨0, 3, false, [20], true⟩]⟩]
+
+/-- known finding `same-implementation-registered-twice` (corpus/C05, replayed on the code every run) -/
+theorem reexport_witness : ¬ LatestNotIgnoredFull := by
+  intro hall
+  exact hall tHist 0 0 20 3 (by decide) (by decide)
+
+example : (hRegister tHist).deps 10 = [3, 3] ∧ (hRegister tHist).handlers 0 0 20 = [3, 3] ∧
+    (hRegister tHist).ignore 3 = [20] := by decide
 
 end IV.Specs
